@@ -132,7 +132,7 @@ def gen_core(rng, lib=None, nranks=None, tight=False, big_ras=False, refresh=Tru
     core["databits"] = rng.choice([8, 16, 16, 32])
     core["nranks"] = nranks if nranks is not None else rng.choice([1, 1, 1, 2])
     post = rng.choice([1, 1, 2, 4, 8])
-    ctrl = {"cmd_buffer_depth": rng.choice([4, 8, 8, 16]), "cmd_buffer_buffered": rng.random() < 0.3,
+    ctrl = {"cmd_buffer_depth": rng.choice([1, 2, 3, 4, 8, 8, 16]), "cmd_buffer_buffered": rng.random() < 0.3,
             "read_time": rng.choice([32, 32, 8, 4, 64]), "write_time": rng.choice([16, 16, 4, 8, 32]),
             "with_refresh": refresh, "refresh_postponing": post, "with_auto_precharge": rng.random() < 0.6,
             "bank_byte_alignment": 0}
